@@ -167,7 +167,8 @@ def gen_world(rng, max_slabs=4, max_halos=6, max_parts=4, want_clean=None, lc=Fa
               'FullStepNumber': 580, 'OutputType': 'GroupOutput', 'SimSet': 'Verif',
               'TimeSliceRedshifts': [2.0, 1.0, 0.5], 'NumTimeSliceRedshiftsPrev_truth': T}
     serial = [1]
-    hid = [rng.randrange(1, 1000)]
+    # halo ids are 64-bit unsigned: now and then far beyond what a float64 (or an int64) holds exactly
+    hid = [rng.choice([0, 0, 0, 2 ** 53 + 1, 2 ** 63 + 11, 2 ** 64 - 10 ** 9]) + rng.randrange(1, 1000)]
 
     def parts(n):
         out = list(range(serial[0], serial[0] + n))
@@ -190,7 +191,7 @@ def gen_world(rng, max_slabs=4, max_halos=6, max_parts=4, want_clean=None, lc=Fa
             h['clean'] = {
                 'N_total': 0 if gone else h['raw']['N'] + (rng.randrange(1, 500) if merged else 0),
                 'N_merge': 0 if not merged else rng.randrange(1, 500),
-                'haloindex': 580 * 10 ** 12 + hid[0], 'is_merged_to': (hid[0] + 1) if gone else -1,
+                'haloindex': (580 * 10 ** 12 + hid[0]) % 2 ** 64, 'is_merged_to': ((hid[0] + 1) % 2 ** 62) if gone else -1,
                 'N_mainprog': [rng.randrange(0, 5000) for _ in range(T)],
                 'vcirc_max_L2com_mainprog': [float(np.float32(rng.uniform(0.01, 0.4))) for _ in range(T)],
                 'sigmav3d_L2com_mainprog': [float(np.float32(rng.uniform(0.01, 0.4))) for _ in range(T)],
@@ -466,7 +467,11 @@ def expected_column(world, slab_indices, name, convert_units=True, cleaned=False
         if name in ('pos_interp', 'vel_interp'):
             avail = np.any(rawf('pos_avg') != 0, axis=1)
             return np.where(avail[:, None], rawf(name.replace('interp', 'avg')), rawf(name)), 'exact'
-    if name in ('id', 'ntaggedA', 'ntaggedB', 'N', 'L2_N', 'L0_N', 'SO_central_density', 'SO_L2max_central_density'):
+    if name == 'id':
+        return np.array([int(h['raw']['id']) for h in hs], dtype=object), 'exact-int'
+    if name in ('haloindex', 'is_merged_to') and cleaned:
+        return np.array([int(h['clean'][name]) for h in hs], dtype=object), 'exact-int'
+    if name in ('ntaggedA', 'ntaggedB', 'N', 'L2_N', 'L0_N', 'SO_central_density', 'SO_L2max_central_density'):
         return rawf(name), 'exact'
     if name in CLEAN_DTYPES and not name.startswith('np'):
         return np.array([h['clean'][name] for h in hs], dtype=np.float64), 'exact'
